@@ -139,6 +139,47 @@ def scrape(src):
     return out
 
 
+def scrape_stringer():
+    """stringer.hash: default digest length and the call sites in lualib/nelua (second/third argument as written)."""
+    st = vlib.repo_read("lualib/nelua/utils/stringer.lua")
+    m = re.search(r"function stringer\.hash\(s, len, key\)\s*len = len or (\d+)\s*local hash = hasher\.blake2b\(s, len, key\)\s*return hasher\.base58encode\(hash\)", st)
+    if not m:
+        raise RuntimeError("stringer.hash no longer has the shape base58encode(blake2b(s, len or <n>, key))")
+    default = int(m.group(1))
+    sites = []
+    root = os.path.join(vlib.REPO, "lualib", "nelua")
+    for d, _, fs in sorted(os.walk(root)):
+        for f in sorted(fs):
+            if not f.endswith(".lua") or f == "stringer.lua":
+                continue
+            txt = vlib.read(os.path.join(d, f))
+            for mm in re.finditer(r"stringer\.hash\(", txt):
+                depth, j = 1, mm.end()
+                while j < len(txt) and depth:
+                    depth += {"(": 1, ")": -1}.get(txt[j], 0)
+                    j += 1
+                args = txt[mm.end():j - 1]
+                parts, dp, cur = [], 0, ""
+                for ch in args:
+                    if ch in "([{":
+                        dp += 1
+                    elif ch in ")]}":
+                        dp -= 1
+                    if ch == "," and dp == 0:
+                        parts.append(cur.strip())
+                        cur = ""
+                    else:
+                        cur += ch
+                parts.append(cur.strip())
+                ln = txt.count("\n", 0, mm.start()) + 1
+                sites.append({"where": "%s:%d" % (os.path.relpath(os.path.join(d, f), vlib.REPO), ln),
+                              "len": None if len(parts) < 2 else (int(parts[1]) if re.fullmatch(r"\d+", parts[1]) else parts[1]),
+                              "key": None if len(parts) < 3 else parts[2]})
+    if not sites:
+        raise RuntimeError("no stringer.hash call site found in lualib/nelua")
+    return {"default": default, "sites": sites}
+
+
 def zl(xs):
     return "[" + "; ".join(("(%d)" % x) if x < 0 else str(x) for x in xs) + "]"
 
@@ -175,6 +216,15 @@ def gen(ctx):
     L.append("Definition B58_DEC_CARRYMASK : Z := %d." % s["dec_carrymask"])
     L.append("Definition B58_DEC_CARRYSHIFT : Z := %d." % s["dec_carryshift"])
     L.append("Definition B58_DEC_LIMBMASK : Z := %d." % s["dec_limbmask"])
+    stg = scrape_stringer()
+    sites = stg["sites"]
+    s["stringer_default_len"] = stg["default"]
+    s["stringer_call_sites"] = sites
+    lens = sorted({(x["len"] if x["len"] is not None else s["stringer_default_len"]) for x in sites if x["len"] is None or isinstance(x["len"], int)})
+    s["stringer_literal_lens"] = lens
+    s["stringer_dynamic_sites"] = [x["where"] for x in sites if not (x["len"] is None or isinstance(x["len"], int)) or x["key"] is not None]
+    L.append("Definition STRINGER_DEFAULT_LEN : Z := %d." % s["stringer_default_len"])
+    L.append("Definition STRINGER_CALLSITE_LENS : list Z := %s." % zl(lens))
     vlib.write_if_changed(os.path.join(vlib.coq_dir(ID), "Gen.v"), "\n".join(L) + "\n")
     rep = dict(s)
     rep["iv"] = ["%016x" % x for x in s["iv"]]
@@ -237,6 +287,8 @@ def oracle(case):
         if op == "H":
             return "ok " + hx(ref_b58enc(d))
         return "ok " + hx(d)
+    if op == "h":
+        return "ok " + hx(ref_b58enc(hashlib.blake2b(case[1], digest_size=20).digest()))   # documented default: 20 bytes
     if op in ("E", "e"):
         x = case[1]
         if len(x) > ENC_MAX:
@@ -337,6 +389,8 @@ def gen_cases(ctx):
     for _ in range(ctx.scale(150, 5000)):
         add("stringer", ("H", rng.choice([20, 20, 20, 8, 16, 32, 64, rng.randint(1, 64)]),
                          rbytes(rng, rng.choice([0, 0, 0, 16, 64]), "rand"), rbytes(rng, rng.choice(dense + [rng.randint(0, 300)]))))
+    for _ in range(ctx.scale(40, 1000)):
+        add("stringer", ("h", rbytes(rng, rng.choice(dense + [rng.randint(0, 300)]))))
     # (6) Base58 encode: every string of length <= 2; leading-zero runs x tails; extremes; limits
     add("b58-exhaustive", ("E", b""))
     for a in range(256):
@@ -471,13 +525,27 @@ def correspond(ctx):
             if line.strip() and not line.startswith("#"):
                 corpus.append(("corpus", parse(line)))
     cases, dist = gen_cases(ctx)
+    # the digest lengths the compiler itself passes to stringer.hash (scraped call sites) must be valid digest lengths
+    try:
+        st = scrape_stringer()
+        for site in st["sites"]:
+            ln = site["len"] if site["len"] is not None else st["default"]
+            if isinstance(ln, int):
+                cases.append(("callsites", ("H", ln, b"", ("call site %s" % site["where"]).encode())))
+                dist["callsites"] = dist.get("callsites", 0) + 1
+                if not (1 <= ln <= 64):
+                    ctx.violation("stringer-callsite:%s" % site["where"], "oracle",
+                                  "%s calls stringer.hash with digest length %d, outside BLAKE2b's 1..64: hasher.blake2b raises 'bad digest size'" % (site["where"], ln),
+                                  detail={"site": site, "replay": "echo 'H %d - 00' | <nelua-lua> harness/C20/ops.lua" % ln})
+    except Exception as ex:
+        ctx.note("call-site scrape failed in correspond: %s" % ex)
     if corpus:
         dist["corpus"] = len(corpus)
     cases = corpus + cases
     lines = [fmt(c) for _, c in cases]
     shards = ctx.scale(4, 12)
     mlines, merr = run_sharded([driver], lines, shards, ctx.scale(600, 3000))
-    impl_idx = [i for i, (_, c) in enumerate(cases) if c[0] in ("B", "E", "D", "H")]
+    impl_idx = [i for i, (_, c) in enumerate(cases) if c[0] in ("B", "E", "D", "H", "h")]
     ilines_, ierr = run_sharded([interp, os.path.join(vlib.VERIF, "harness", ID, "ops.lua")],
                                 [lines[i] for i in impl_idx], 2, 1200, env=vlib.lua_env())
     if mlines is None or ilines_ is None:
@@ -512,6 +580,7 @@ def correspond(ctx):
             if n_oracle_fail <= 6:
                 what = {"B": "hasher.blake2b differs from RFC 7693 (hashlib.blake2b)",
                         "H": "stringer.hash differs from base58(RFC 7693 BLAKE2b)",
+                        "h": "stringer.hash (default length) differs from base58(RFC 7693 BLAKE2b-160)",
                         "E": "hasher.base58encode differs from the Bitcoin-alphabet encoding",
                         "D": "hasher.base58decode differs from the Bitcoin-alphabet decoding"}[op]
                 ctx.violation("hasher:%s" % line, "oracle",
@@ -611,4 +680,11 @@ def correspond(ctx):
         "traces_validated_against_impl": len(impl_idx) + len(rt_lines),
         "sanitizer_stream": san,
         "unproved": [],
+        "limits": ["model = C code is not a theorem: the tie is the regenerated tables (T) plus this correspondence (C)",
+                   "the t0 -> t1 counter carry of blake2b_incr is modelled and proved against the RFC's 128-bit counter but cannot be "
+                   "observed by correspondence (needs a message of 2^64 bytes)",
+                   "blake2b_update's byte-alignment loop is unreachable from the Lua API (one-shot blake2b); it is covered by theorem "
+                   "C20_blake2b_streaming only",
+                   "hasher.blake2b(m, digln): digln is truncated to a C int before the range check, so e.g. 2^32+5 is accepted as 5 "
+                   "(outside the property's domain 1..64; mirrored by the model, compared model-vs-implementation only)"],
     }
